@@ -254,3 +254,15 @@ Qed.
 (** SplineCV on a toy family: the fitted state is mindist + damping times the data mean *)
 Example C12_nv_argmax : argmax_first [1; 3; 2; 3] = 1%nat /\ param_grid [1; 2] [5; 6; 7] = [(1, 5); (1, 6); (1, 7); (2, 5); (2, 6); (2, 7)].
 Proof. split; reflexivity. Qed.
+
+(** the premises of r2_formula and tts_complementary are satisfiable *)
+Example C12_nv_r2_den : ~ r2_den [1; 2] [1; 3] == 0.
+Proof. vm_compute. discriminate. Qed.
+
+Example C12_nv_split : Permutation (fst ([2; 0], [3; 1])%nat ++ snd ([2; 0], [3; 1])%nat) (seq 0 4).
+Proof.
+  cbn. apply NoDup_Permutation.
+  - repeat constructor; cbn; intuition discriminate.
+  - repeat constructor; cbn; intuition discriminate.
+  - intros x. cbn. intuition.
+Qed.
